@@ -165,3 +165,7 @@ func VerifC01_PumpHistoryDelivers() { verifPumpHistory() }
 // (shared with C04) messages of a channel created after another was deleted are still redelivered:
 // the queue scanner picks the new channel up at its next refresh.
 func VerifC01_QueueScanFollowsChannelChurn() { VerifC04_QueueScanFollowsChannelChurn() }
+
+// A publisher racing another first user of a new topic (a second publisher, a SUB) must end up on
+// the ONE Topic object the topic map holds - see verifRacingGetTopic (c12.go).
+func VerifC01_RacingTopicCreationYieldsOneTopic() { verifRacingGetTopic() }
